@@ -313,6 +313,19 @@ func (c *Conn) readCommand(dec *imapwire.Decoder) error {
 	return c.writeStatusResp(tag, resp)
 }
 
+// readLine reads a line which isn't part of a command (the DONE of IDLE, a
+// SASL response). If the line doesn't fit into the read buffer, tooLong is
+// true and the whole line has been consumed nevertheless, so that its
+// remainder isn't parsed as a command.
+func (c *Conn) readLine() (line []byte, tooLong bool, err error) {
+	line, isPrefix, err := c.br.ReadLine()
+	for isPrefix && err == nil {
+		tooLong = true
+		_, isPrefix, err = c.br.ReadLine()
+	}
+	return line, tooLong, err
+}
+
 func (c *Conn) handleNoop(dec *imapwire.Decoder) error {
 	if !dec.ExpectCRLF() {
 		return dec.Err()
